@@ -2,9 +2,11 @@ package sim
 
 import (
 	"bytes"
+	"context"
 	"fmt"
 	"time"
 
+	"github.com/plgd-dev/go-coap/v3/message"
 	"github.com/plgd-dev/go-coap/v3/message/pool"
 	"github.com/plgd-dev/go-coap/v3/net/blockwise"
 	"github.com/plgd-dev/go-coap/v3/net/client"
@@ -45,6 +47,7 @@ type c08Obs struct {
 	obs           client.Observation
 	token         []byte
 	regCode       byte
+	dupTried      bool // a second registration with this observation's token was attempted
 	regObs        bool // registration answer carried an Observe option
 	regSeen       bool // the peer saw the registration
 	regAnswered   bool
@@ -401,6 +404,30 @@ func c08Run(e *Env) {
 					e.Fault("ctx.registrationAbandoned")
 					e.Logf("application cancels the context of the pending registration of obs%d", o.idx)
 					e.CancelCall(o.call)
+				}})
+			}
+			if o.registered && !o.cancelStarted && !o.dupTried && o.token != nil && o.regObs && (o.regCode == 0x45 || o.regCode == 0x43) {
+				// an application error that must stay harmless: a second registration with the token of a live
+				// observation. It is refused, and the observation that owns the token goes on as before.
+				evs = append(evs, Event{Label: "register-with-token-in-use", W: 1, Do: func() {
+					o.dupTried = true
+					e.Fault("observe.tokenInUse")
+					e.Logf("application registers another observation with the token of obs%d", o.idx)
+					ctx, cancel := context.WithTimeout(context.Background(), 3*time.Second)
+					e.OnCleanup(cancel)
+					go func() {
+						req := w.API.AcquireMessage(ctx)
+						defer w.API.ReleaseMessage(req)
+						_ = req.SetupGet(fmt.Sprintf("/o%d", o.idx), message.Token(o.token), QueryOpt(90+o.idx))
+						req.SetObserve(0)
+						_, err := w.API.DoObserve(req, func(n *pool.Message) {
+							e.Violate("C08.R2", "notification-to-refused-registration", "the callback of a registration that was refused (token in use) was invoked")
+						})
+						if err != nil {
+							e.Probe("observe.tokenInUseRefused")
+						}
+						e.Notef("registration with the token of obs%d returned err=%v", o.idx, err != nil)
+					}()
 				}})
 			}
 			if o.registered && !o.cancelStarted {
